@@ -19,6 +19,12 @@ claimed = {
           "tpt from a list for the single-bucket obligations (symbolic tpt in the thorough tier), symbolic tpt for the set"),
  "C17": ("6 C17", "BMC from a fresh RollingCounter: N in {2,3,4} buckets, resolution 1s/2s (the time grid), k=3 (thorough 4) operations chosen symbolically among Inc/Count/Reset with symbolic clock advances (sub-resolution and multi-window), symbolic start instant; at every Count the two-sided window bound holds; RatioCounter.Ratio equals a/(a+b) in IEEE arithmetic.",
           "N<=4 (10 in thorough), k<=3/4, resolutions 1s,2s,7s; start instant within a window covering all slot residues"),
+ "C05": ("6 C05", "BMC through the real CircuitBreaker.ServeHTTP (activateFallback, serve, checkAndSet, setState, setRecovering) from a fresh breaker: k requests with overlapping (nested) in-flight requests, symbolic clock gaps/latencies, symbolic fallback/recovery/check durations, symbolic condition outcome per evaluation; asserts shielding while tripped until tripAt+fallbackDuration, fallback answer, standby passes everything, legal transitions only, `until` stable while tripped.",
+          "k<=3 requests, overlap depth<=2 (thorough k<=4); metrics Record/Reset and the ramp decision are stubs here (C18/C12 own them), so counterexamples whose replay depends on a ramp decision may be reported as inconclusive"),
+ "C12": ("6 C12", "IEEE-754-exact check of ratioController.allowRequest: for every counter pair in [0,A]^2, listed recovery durations and every elapsed time the float decision agrees with the exact rational ramp 0.5*elapsed/duration within 2^-40, counters move by exactly one; inductive float-level invariant fraction<=ramp for symbolic counters < 2^B; end of recovery (standby after the period, re-trip) is asserted in the C05 history harness.",
+          "A=3 (7), B=3 (6), durations 7ns,1s,10s,1h"),
+ "C19": ("6 C19", "String-theory check (cvc5 strings + LIA, z3 for models) of NewExtractor/extractClientIP/extractHost/header extractor on the real SSA including net.SplitHostPort: for the three address forms net/http produces with symbolic byte contents the token equals the peer address, amounts are 1, and the variable-name dispatch accepts exactly the documented names.",
+          "string lengths case-split: ip 1..5, port 1..5, zone 1..3 bytes (listed per job); malformed RemoteAddr is outside the claim"),
 }
 
 checks = []
